@@ -454,6 +454,26 @@ fn check_built(ctx: &mut Ctx, seed: u64) {
         })*};
     }
     ints!(u8 u16 u32 u64 usize i8 i16 i32 i64 isize);
+    // Value == Value on integers agrees with comparison of the integers, across signedness: in
+    // particular a negative i64 is never equal to the u64 with the same bit pattern
+    {
+        let p: i64 = match r.below(5) { 0 => -1, 1 => i64::MIN, 2 => i64::MIN + 1, 3 => -((r.next() >> r.below(63)) as i64), _ => (r.next() >> 1) as i64 };
+        let q: u64 = match r.below(3) { 0 => p as u64, 1 => (p as u64).wrapping_add(1), _ => r.next() };
+        let want = p as i128 == q as i128;
+        let (vp, vq) = (Value::from(p), Value::from(q));
+        let (wp, wq) = (parsed_of(&p).unwrap_or_default(), parsed_of(&q).unwrap_or_default());
+        // the same pair at matching positions of nested containers (member order differs)
+        let na = sonic_rs::json!({"id": vp.clone(), "t": [1, vp.clone()]});
+        let nb = sonic_rs::json!({"t": [1, vq.clone()], "id": vq.clone()});
+        let nc = sonic_rs::json!({"id": vp.clone(), "t": [1, vq.clone()]});
+        let nd = sonic_rs::json!({"t": [1, vp.clone()], "id": vq.clone()});
+        let got = [vp == vq, vq == vp, wp == wq, wq == wp, vp == wq, wq == vp, na == nb, nb == na, nc == nd, nd == nc];
+        ctx.ops(1);
+        ctx.class("built:cross-sign-pair");
+        if got.iter().any(|g| *g != want) {
+            ctx.fail("eq-integers-cross-sign", format!("{}i64 vs {}u64: Value==Value forms {:?}, the integers compare {}", p, q, got, want));
+        }
+    }
     if !(Value::from(()).is_null() && Value::from(None::<i32>).is_null() && Value::from(()) == Value::default() && parsed_of(&()).map(|w| w == Value::from(())).unwrap_or(false)) {
         ctx.fail("eq-built:unit", "Value::from(()) / None / default / parsed null disagree".into());
     }
